@@ -73,18 +73,23 @@ def steady_state_transport_solver(
         2D or 3D field of kinematic flux at levels or footprint.
     """
 
-    # Check cache for footprint mode
-    if cache is not None and footprint:
-        cached = cache.get(z, profiles, domain, modes, meas_pt, halo, precision)
-        if cached is not None:
-            return cached
-
     q0 = srf_flx
     p000 = srf_bg_conc
     u, v, Kx, Ky, Kz = profiles
     xmx, ymx = domain
     nlx, nly = modes
     xm, ym = meas_pt
+
+    # halo to deal with periodicity of FFT
+    # (resolved before the cache lookup so that lookup and store agree)
+    if halo is None:
+        halo = max(xmx, ymx)
+
+    # Check cache for footprint mode
+    if cache is not None and footprint:
+        cached = cache.get(z, profiles, domain, modes, meas_pt, halo, precision)
+        if cached is not None:
+            return cached
 
     # Check if modes are even
     if (nlx % 2 > 0) or (nly % 2 > 0):
@@ -108,10 +113,6 @@ def steady_state_transport_solver(
     levels, level_slot = np.unique(requested_levels, return_inverse=True)
 
     nlvls = len(levels)
-
-    # halo to deal with periodicity of FFT
-    if halo is None:
-        halo = max(xmx, ymx)
 
     # pad width
     px = int(halo / dx)
